@@ -1165,8 +1165,8 @@ void NifFile::TrimTexturePaths() {
 		if (tex.empty())
 			return tex;
 
-		// Replace multiple slashes or forward slashes with one backslash
-		tex = std::regex_replace(tex, std::regex("/+|\\\\+"), "\\");
+		// Replace every run of slashes and backslashes (also a mixed one like "/\") with one backslash
+		tex = std::regex_replace(tex, std::regex("[/\\\\]+"), "\\");
 
 		// Search for the first occurrence of "\textures\" (only if "textures\" isn't at the start)
 		std::smatch match;
